@@ -309,7 +309,7 @@ impl Dependencies for Function {
     }
 
     fn dependencies(&self) -> Vec<Dependency> {
-        self.body.net_dependencies()
+        crate::ast::crossing_function_boundary(self.body.net_dependencies())
     }
 }
 
